@@ -227,7 +227,7 @@ theorem RC_class {env : Env} {cx : PCtx} {k : SKw} {kids : Kids} {σ : D6.SSub} 
     have htm : D6.typeMatch "object" (.obj kvs) = true := by simp [D6.typeMatch]
     rw [htm, Bool.true_and]
     unfold createV validators restOk
-    simp only [typeOk, V.ofBool_true, V.and_pass_left, constructV]
+    simp only [typeOk, V.ofBool_true, V.and_pass_left, constructV, additionalPropsCheck, V.and_pass_right]
     have hlit := literalChecks_spec k (partsOf cx k kids) d (.obj kvs) N.lit
     have hlit' : literalChecks
         { default := (baseKw k (partsOf cx k kids) d).default, const := (baseKw k (partsOf cx k kids) d).const,
